@@ -1,10 +1,14 @@
-//! C09 — (not built yet)
-#![allow(unused_imports, unused_variables, dead_code)]
+//! C09 — skipping a container or value lands exactly after its matching close (aggregate check).
+//! Ops and oracles live in the reader slices: text `tskip` / `tskipu` (c07.rs), binary `bskip` /
+//! `blexskip` / `blexskipv` (c08.rs); this module assembles their generators.
 use crate::common::*;
 
-pub fn gen(g: &mut Gen) {}
+pub fn gen(g: &mut Gen) {
+    super::c07::gen_skip(g);
+    super::c08::gen_skip(g);
+}
 
-pub fn exec(w: &[&str], obs: &mut Obs) -> Option<String> {
+pub fn exec(_w: &[&str], _obs: &mut Obs) -> Option<String> {
     None
 }
 
